@@ -14,11 +14,11 @@ const relS3Client = "internal/storage/s3client"
 
 // option/result fields the S3 wire protocol has no place for, or that are derived.
 var c38Exempt = map[string]string{
-	"ListObjectsOptions.SkipPartFetch":                         "internal optimisation hint of the metadata store, no observable effect",
-	"PutObject:ChecksumInput.ChecksumType":                     "S3 has no checksum-type field on single-request uploads (always FULL_OBJECT)",
-	"UploadPart:ChecksumInput.ChecksumType":                    "S3 has no checksum-type field on part uploads",
-	"CompleteMultipartUpload:ChecksumInput.ChecksumAlgorithm":  "not a request field of CompleteMultipartUpload; the algorithm is fixed at CreateMultipartUpload",
-	"CompleteMultipartUpload:ChecksumInput.ETag":               "CompleteMultipartUpload carries no Content-MD5 of the object; part ETags travel in the part manifest",
+	"ListObjectsOptions.SkipPartFetch":                        "internal optimisation hint of the metadata store, no observable effect",
+	"PutObject:ChecksumInput.ChecksumType":                    "S3 has no checksum-type field on single-request uploads (always FULL_OBJECT)",
+	"UploadPart:ChecksumInput.ChecksumType":                   "S3 has no checksum-type field on part uploads",
+	"CompleteMultipartUpload:ChecksumInput.ChecksumAlgorithm": "not a request field of CompleteMultipartUpload; the algorithm is fixed at CreateMultipartUpload",
+	"CompleteMultipartUpload:ChecksumInput.ETag":              "CompleteMultipartUpload carries no Content-MD5 of the object; part ETags travel in the part manifest",
 }
 
 func checkC38(w *World, r *Run) {
